@@ -2457,3 +2457,28 @@ func TestVerifC04(t *testing.T) {
 	}
 	_ = io.Discard
 }
+
+// c04TieInputs: one digest string of every class (the same list as `tieInputs` in lean/OllamaVerif/Tie/C04.lean).
+func c04TieInputs() []string {
+	h := strings.Repeat("0123456789abcdef", 4)
+	u := strings.ToUpper(h)
+	return []string{"sha256:" + h, "sha256-" + h, "sha256:" + u, "sha256-" + u, "sha256:" + h[:63], "sha256:" + h + "0",
+		"sha256-" + h + "-partial", "sha256_" + h, "SHA256:" + h, "sha256:" + h[:63] + "g", "sha512:" + h, "sha256" + h}
+}
+
+// TestVerifC04Facts EXECUTES GetBlobsPath on every class of digest string and writes the answers to
+// $VERIF_OUT/facts.txt; the check turns them into Generated/C04_Source.lean (Tie 1, consumed by `decide`).
+func TestVerifC04Facts(t *testing.T) {
+	t.Setenv("OLLAMA_MODELS", t.TempDir())
+	var sb strings.Builder
+	for _, in := range c04TieInputs() {
+		res := "ERR"
+		if p, err := GetBlobsPath(in); err == nil {
+			res = filepath.Base(p)
+		}
+		sb.WriteString("blobspath\t" + in + "\t" + res + "\n")
+	}
+	if err := os.WriteFile(filepath.Join(os.Getenv("VERIF_OUT"), "facts.txt"), []byte(sb.String()), 0o644); err != nil {
+		t.Fatal(err)
+	}
+}
